@@ -1,6 +1,7 @@
 import Rbacx.Model.PyIdent
 import Rbacx.Model.Compiler
 import Rbacx.Proofs.EvaluatorsTranslated
+import Rbacx.Proofs.PyLibLemmas
 /-
   Rbacx.Proofs.CompileTranslated — what the per-run obligation `Run/C03_whole.lean` needs to prove the translation of `compile` and the
   closure it returns (`Generated.Src.compile_decide`, harness/pytolean_closure.py) equal to the model's `compiledDecide`.  Nothing here
@@ -594,5 +595,413 @@ theorem ByAct.get {kvs T x} (h : ByAct kvs T x []) (a : String) :
     refine ⟨[], by simp only [getDE, hl, Option.getD], fun y => ?_⟩
     simp only [List.not_mem_nil, false_iff, not_and, Bool.not_eq_true]
     exact ha.1 y
+
+end Rbacx.PyI
+
+namespace Rbacx.PyI
+open PyVal Rbacx.PyE
+
+/-! ### loops followed by a continuation -/
+
+theorem forLoop_inv_bind {σ β : Type} (Inv : List PyVal → σ → Prop) (body : σ → PyVal → Except CondErr (Ctl σ)) (xs : List PyVal)
+    (init : σ) (k : σ → Except CondErr β) (R : Except CondErr β) (hinit : Inv [] init)
+    (hstep : ∀ p x q s, xs = p ++ x :: q → Inv p s → ∃ s', body s x = .ok (.next s') ∧ Inv (p ++ [x]) s')
+    (hk : ∀ s, Inv xs s → k s = R) : PyE.bind (forLoop xs init body) k = R := by
+  obtain ⟨s', hs', hi⟩ := forLoop_inv Inv body xs [] xs rfl hstep init hinit
+  rw [hs']
+  exact hk s' hi
+
+theorem forLoop_fold_enc_bind {σ τ β : Type} (enc : τ → σ) (f : τ → PyVal → τ) (body : σ → PyVal → Except CondErr (Ctl σ)) (xs : List PyVal)
+    (s : τ) (k : σ → Except CondErr β) (R : Except CondErr β)
+    (h : ∀ s x, x ∈ xs → body (enc s) x = .ok (.next (enc (f s x)))) (hk : k (enc (xs.foldl f s)) = R) :
+    PyE.bind (forLoop xs (enc s) body) k = R := by
+  rw [forLoop_fold_enc enc f body xs h s]
+  exact hk
+
+theorem tagList_list (rs : List PyVal) : tagList (.list rs) = .list (tagFrom 0 rs) := rfl
+
+theorem mem_tagFrom_lt {x : PyVal} {i : Nat} {rs : List PyVal} (h : x ∈ tagFrom i rs) : tagNat x < i + rs.length := by
+  induction rs generalizing i with
+  | nil => cases h
+  | cons r rs ih =>
+    simp only [tagFrom, List.mem_cons] at h
+    rcases h with h | h
+    · subst h; rw [tagNat_tag]; simp
+    · have := ih h; simp only [List.length_cons]; omega
+
+theorem mem_tagFrom_untag {x : PyVal} {i : Nat} {rs : List PyVal} (h : x ∈ tagFrom i rs) : untag x ∈ rs := by
+  obtain ⟨k, v, rfl, _, hv⟩ := mem_tagFrom h
+  exact hv
+
+theorem eq_tag_of_split {rs p q : List PyVal} {x : PyVal} (h : tagFrom 0 rs = p ++ x :: q) : x = tag p.length (untag x) ∧ untag x ∈ rs := by
+  have hm : x ∈ tagFrom 0 rs := by rw [h]; simp
+  obtain ⟨k, v, rfl, _, hv⟩ := mem_tagFrom hm
+  have := tagFrom_split h
+  rw [tagNat_tag] at this
+  simp only [Nat.zero_add] at this
+  rw [this, untag_tag]
+  exact ⟨rfl, hv⟩
+
+theorem lenE_idEntries (n : Nat) : lenE (.list (idEntries n)) = .ok (.int n) := by
+  simp [lenE, idEntries_length]
+
+/-! ### the index loop -/
+
+theorem ByAct.retarget {kvs pre x} (h : ByAct kvs pre x []) (x' : PyVal) : ByAct kvs pre x' [] := by
+  intro a
+  have ha := h a
+  cases hl : lookup a kvs with
+  | some v =>
+    rw [hl] at ha
+    obtain ⟨l, rfl, hm⟩ := ha
+    exact ⟨l, rfl, fun y => by rw [hm y]; simp⟩
+  | none =>
+    rw [hl] at ha
+    exact ⟨ha.1, by simp⟩
+
+/-- `for a in acts: if a == "*": continue; by_action.setdefault(a, []).append(x)` -/
+theorem index_inner (body : PyVal → PyVal → Except CondErr (Ctl PyVal)) (x : PyVal) (pre : List PyVal)
+    (hbody : ∀ s a, body s (.str a) = if (Rbacx.Py.eq (.str a) (.str "*")).truthy = true then .ok (.next s)
+        else PyE.bind (setdefaultAppendE s (.str a) x) fun b => .ok (.next b)) :
+    ∀ (acts done : List String) (kvs : List (String × PyVal)), ByAct kvs pre x done →
+      ∃ kvs', forLoop (acts.map PyVal.str) (.dict kvs) body = .ok (.dict kvs') ∧ ByAct kvs' pre x (done ++ acts)
+  | [], done, kvs, h => ⟨kvs, rfl, by rw [List.append_nil]; exact h⟩
+  | a :: acts, done, kvs, h => by
+    simp only [List.map_cons]
+    unfold forLoop
+    rw [hbody, eq_str]
+    by_cases ha : a = "*"
+    · subst ha
+      simp only [beq_self_eq_true, if_true, bind_ok]
+      obtain ⟨kvs', h1, h2⟩ := index_inner body x pre hbody acts (done ++ ["*"]) kvs h.skip_star
+      exact ⟨kvs', h1, by rw [List.append_assoc] at h2; exact h2⟩
+    · have hb : (a == "*") = false := by simpa using ha
+      obtain ⟨kvs1, e1, b1⟩ := h.add a ha
+      simp only [hb, Bool.false_eq_true, if_false, e1, bind_ok]
+      obtain ⟨kvs', h1, h2⟩ := index_inner body x pre hbody acts (done ++ [a]) kvs1 b1
+      exact ⟨kvs', h1, by rw [List.append_assoc] at h2; exact h2⟩
+
+theorem filter_starP_snoc (p : List PyVal) (n : Nat) (v : PyVal) :
+    (p ++ [tag n v]).filter starP = if (compActions v).contains "*" then p.filter starP ++ [tag n v] else p.filter starP := by
+  have hs : starP (tag n v) = (compActions v).contains "*" := by simp only [starP, untag_tag]
+  rw [List.filter_append, List.filter_cons, List.filter_nil, hs]
+  cases (compActions v).contains "*" <;> simp
+
+/-! ### the collection loops -/
+
+def encCS (st : List PyVal × List PyVal) : PyVal × PyVal := (.list st.1, .list st.2)
+
+theorem collect_body (c s : List PyVal) (r : PyVal) (hr : IsTagged r) :
+    (PyE.bind (containsE (.list s) (idOf r)) fun t15 =>
+      if (Rbacx.Py.pnot t15).truthy = true then
+        PyE.bind (appendE (.list c) r) fun candidates =>
+          PyE.bind (addE (.list s) (idOf r)) fun seen => Except.ok (Ctl.next (candidates, seen))
+      else Except.ok (Ctl.next (PyVal.list c, PyVal.list s))) = .ok (.next (encCS (stepC (c, s) r))) := by
+  unfold stepC encCS
+  rw [hr.idOf]
+  simp only [containsE, bind_ok, Rbacx.Py.pnot, PyVal.truthy]
+  cases hin : pyIn (.int (tagNat r)) s
+  · have hany : (s.any fun y => pyEq y (.int (tagNat r))) = false := hin
+    simp [appendE, addE, Rbacx.Py.hashable, Rbacx.Py.setAdd, hany]
+  · simp
+
+/-! ### the buckets -/
+
+/-- buckets and `matched` flags after the candidates `p` -/
+def encB (cat : PyVal → Option Nat) (m : PyVal → Bool) (p : List PyVal) : PyVal × PyVal :=
+  (.list [.list (p.filter fun x => cat x == some 0), .list (p.filter fun x => cat x == some 1),
+          .list (p.filter fun x => cat x == some 2), .list (p.filter fun x => cat x == some 3)],
+   .list [.bool ((p.filter fun x => cat x == some 0).any m), .bool ((p.filter fun x => cat x == some 1).any m),
+          .bool ((p.filter fun x => cat x == some 2).any m), .bool ((p.filter fun x => cat x == some 3).any m)])
+
+theorem encB_snoc_none {cat m} (p : List PyVal) (x : PyVal) (h : cat x = Option.none) : encB cat m (p ++ [x]) = encB cat m p := by
+  simp [encB, List.filter_append, h]
+
+/-- the first bucket with a matching rule -/
+def selectB (m : PyVal → Bool) : List (List PyVal) → List PyVal
+  | [] => []
+  | b :: bs => if b.any m then b else selectB m bs
+
+theorem select_loop (m : PyVal → Bool) (B0 B1 B2 B3 : List PyVal) (body : PyVal → PyVal → Except CondErr (Ctl PyVal))
+    (h0 : ∀ sel, body sel (.int 0) = .ok (if B0.any m then .brk (.list B0) else .next sel))
+    (h1 : ∀ sel, body sel (.int 1) = .ok (if B1.any m then .brk (.list B1) else .next sel))
+    (h2 : ∀ sel, body sel (.int 2) = .ok (if B2.any m then .brk (.list B2) else .next sel))
+    (h3 : ∀ sel, body sel (.int 3) = .ok (if B3.any m then .brk (.list B3) else .next sel)) :
+    forLoop [.int 0, .int 1, .int 2, .int 3] (.list []) body = .ok (.list (selectB m [B0, B1, B2, B3])) := by
+  simp only [forLoop, h0, h1, h2, h3, selectB]
+  cases B0.any m <;> cases B1.any m <;> cases B2.any m <;> cases B3.any m <;> rfl
+
+/-! ### the last step: `evaluate` on the compiled policy -/
+
+theorem lowerChar_idem : ∀ n : Nat, n < 91 → 65 ≤ n → ¬ ('A' ≤ Char.ofNat (n + 32) ∧ Char.ofNat (n + 32) ≤ 'Z') := by decide
+
+theorem sizeL_sublist {l1 l2 : List PyVal} (h : l1.Sublist l2) : sizeL l1 ≤ sizeL l2 := by
+  induction h with
+  | slnil => exact Nat.le_refl _
+  | cons a _ ih => simp only [sizeL]; omega
+  | cons_cons a _ ih => simp only [sizeL]; omega
+
+theorem dictOf_two (a b : PyVal) : Rbacx.Py.dictOf [("algorithm", a), ("rules", b)] = .dict [("algorithm", a), ("rules", b)] := by
+  simp [Rbacx.Py.dictOf, Rbacx.Py.setItem, Rbacx.Py.setKV]
+
+end Rbacx.PyI
+
+namespace Rbacx.PyI
+open PyVal Rbacx.PyE
+
+/-- the state of the index loop after the tagged rules `p`: (order, star_rules, by_action) -/
+def InvA (p : List PyVal) (s : PyVal × PyVal × PyVal) : Prop :=
+  s.1 = .list (idEntries p.length) ∧ s.2.1 = .list (p.filter starP) ∧ ∃ kvs, s.2.2 = .dict kvs ∧ ByAct kvs p PyVal.none []
+
+/-- ONE ITERATION OF THE INDEX LOOP, for any inner body `ib` that does what `if a == "*": continue; by_action.setdefault(a, []).append(rule)`
+    does: from the index of `p` to the index of `p ++ [rule]` -/
+theorem index_step (ib : PyVal → PyVal → Except CondErr (Ctl PyVal)) (p : List PyVal) (kvs : List (String × PyVal)) (v : PyVal)
+    (hib : ∀ s a, ib s (.str a) = if (Rbacx.Py.eq (.str a) (.str "*")).truthy = true then .ok (.next s)
+        else PyE.bind (setdefaultAppendE s (.str a) (tag p.length v)) fun b => .ok (.next b))
+    (hby : ByAct kvs p PyVal.none []) :
+    ∃ s', (if (compActions v).isEmpty = true then
+          Except.ok (Ctl.next (PyVal.list (idEntries (p.length + 1)), PyVal.list (List.filter starP p), PyVal.dict kvs))
+        else
+          PyE.bind
+            (if (compActions v).contains "*" = true then
+              PyE.bind (appendE (.list (List.filter starP p)) (tag p.length v)) fun star_rules => Except.ok star_rules
+            else Except.ok (.list (List.filter starP p)))
+            fun s =>
+            PyE.bind (forLoop (List.map PyVal.str (compActions v)) (.dict kvs) ib)
+              fun s_1 => Except.ok (Ctl.next (PyVal.list (idEntries (p.length + 1)), s, s_1))) =
+        Except.ok (Ctl.next s') ∧ InvA (p ++ [tag p.length v]) s' := by
+  have hlen : (p ++ [tag p.length v]).length = p.length + 1 := by simp
+  by_cases hemp : (compActions v).isEmpty = true
+  · have hnil : compActions v = [] := List.isEmpty_iff.mp hemp
+    simp only [hemp, if_true]
+    refine ⟨_, rfl, ?_, ?_, kvs, rfl, ?_⟩
+    · simp only [hlen]
+    · simp only [filter_starP_snoc, hnil]; rfl
+    · have h2 : ByAct kvs p (tag p.length v) (compActions (untag (tag p.length v))) := by
+        rw [untag_tag, hnil]; exact hby.retarget _
+      exact h2.close _
+  · simp only [hemp, Bool.false_eq_true, if_false]
+    obtain ⟨kvs', e1, b1⟩ := index_inner ib (tag p.length v) p hib (compActions v) [] kvs (hby.retarget _)
+    simp only [List.nil_append] at b1
+    have h2 : ByAct kvs' p (tag p.length v) (compActions (untag (tag p.length v))) := by rw [untag_tag]; exact b1
+    by_cases hst : (compActions v).contains "*" = true
+    · simp only [hst, if_true, appendE, bind_ok, e1]
+      refine ⟨_, rfl, ?_, ?_, kvs', rfl, h2.close _⟩
+      · simp only [hlen]
+      · simp only [filter_starP_snoc, hst, if_true]
+    · simp only [hst, Bool.false_eq_true, if_false, bind_ok, e1]
+      refine ⟨_, rfl, ?_, ?_, kvs', rfl, h2.close _⟩
+      · simp only [hlen]
+      · simp only [filter_starP_snoc, hst, Bool.false_eq_true, if_false]
+
+end Rbacx.PyI
+
+namespace Rbacx.PyI
+open PyVal Rbacx.PyE Rbacx.Py
+
+theorem encB_snoc_some {cat : PyVal → Option Nat} {m : PyVal → Bool} (p : List PyVal) (x : PyVal) (n : Nat) (h : cat x = some n) :
+    encB cat m (p ++ [x]) =
+      (.list [.list (p.filter (fun x => cat x == some 0) ++ if n = 0 then [x] else []),
+              .list (p.filter (fun x => cat x == some 1) ++ if n = 1 then [x] else []),
+              .list (p.filter (fun x => cat x == some 2) ++ if n = 2 then [x] else []),
+              .list (p.filter (fun x => cat x == some 3) ++ if n = 3 then [x] else [])],
+       .list [.bool ((p.filter fun x => cat x == some 0).any m || (n == 0 && m x)),
+              .bool ((p.filter fun x => cat x == some 1).any m || (n == 1 && m x)),
+              .bool ((p.filter fun x => cat x == some 2).any m || (n == 2 && m x)),
+              .bool ((p.filter fun x => cat x == some 3).any m || (n == 3 && m x))]) := by
+  simp only [encB, List.filter_append, List.filter_cons, List.filter_nil, h, Option.some.injEq, beq_iff_eq]
+  by_cases h0 : n = 0 <;> by_cases h1 : n = 1 <;> by_cases h2 : n = 2 <;> by_cases h3 : n = 3 <;>
+    simp [h0, h1, h2, h3, List.any_append]
+
+/-- ONE ITERATION OF THE BUCKET LOOP (after `_categorize`, `match_resource` are replaced by what they are proved equal to) -/
+theorem bucket_step (cat : PyVal → Option Nat) (m : PyVal → Bool) (hle : ∀ x n, cat x = some n → n ≤ 3) (p : List PyVal) (x : PyVal) :
+    (if (Py.isNone (encOptNat (cat x))).truthy = true then Except.ok (Ctl.next ((encB cat m p).fst, (encB cat m p).snd))
+     else PyE.bind (appendAtE (encB cat m p).fst (encOptNat (cat x)) x) fun buckets =>
+       PyE.bind (itemE (encB cat m p).snd (encOptNat (cat x))) fun t19 =>
+         PyE.bind (if (pnot t19).truthy = true then Except.ok (PyVal.bool (m x)) else Except.ok (pnot t19)) fun t21 =>
+           if t21.truthy = true then
+             PyE.bind (setIdxE (encB cat m p).snd (encOptNat (cat x)) (PyVal.bool true)) fun matched => Except.ok (Ctl.next (buckets, matched))
+           else Except.ok (Ctl.next (buckets, (encB cat m p).snd)))
+      = .ok (.next (encB cat m (p ++ [x]))) := by
+  cases hc : cat x with
+  | none => simp [encOptNat, Py.isNone, PyVal.isNone, PyVal.truthy, encB_snoc_none p x hc]
+  | some n =>
+    have hn := hle x n hc
+    rw [encB_snoc_some p x n hc]
+    have h4 : n = 0 ∨ n = 1 ∨ n = 2 ∨ n = 3 := by omega
+    rcases h4 with rfl | rfl | rfl | rfl
+    all_goals
+      simp only [encB, encOptNat, Py.isNone, PyVal.isNone, PyVal.truthy, Bool.false_eq_true, if_false]
+      generalize (p.filter fun x => cat x == some 0) = B0
+      generalize (p.filter fun x => cat x == some 1) = B1
+      generalize (p.filter fun x => cat x == some 2) = B2
+      generalize (p.filter fun x => cat x == some 3) = B3
+      cases B0.any m <;> cases B1.any m <;> cases B2.any m <;> cases B3.any m <;> cases m x <;>
+        simp [appendAtE, appendE, itemE, listIdx, setIdxE, normIdx, Py.pnot, PyVal.truthy, PyE.bind]
+
+end Rbacx.PyI
+
+namespace Rbacx.PyI
+open PyVal Rbacx.PyE Rbacx.Py
+
+/-- one iteration of the selection loop, once `buckets[i]` = `Bi` and `matched[i]` = `Bi.any m` are read -/
+theorem select_body_aux (Bi : List PyVal) (m : PyVal → Bool) (sel : PyVal) :
+    (PyE.bind (Except.ok (PyVal.list Bi)) fun t23 =>
+      PyE.bind (if (untagList t23).truthy = true then Except.ok (PyVal.bool (Bi.any m)) else Except.ok (untagList t23)) fun t25 =>
+        if t25.truthy = true then PyE.bind (Except.ok (PyVal.list Bi)) fun t26 => Except.ok (Ctl.brk t26) else Except.ok (Ctl.next sel))
+      = .ok (if Bi.any m = true then .brk (.list Bi) else .next sel) := by
+  cases Bi with
+  | nil => simp [untagList, PyVal.truthy]
+  | cons b bs =>
+    cases h : (b :: bs).any m <;> simp [untagList, PyVal.truthy, h]
+
+theorem itemE4 (a b c d : PyVal) : itemE (.list [a, b, c, d]) (.int 0) = .ok a ∧ itemE (.list [a, b, c, d]) (.int 1) = .ok b ∧
+    itemE (.list [a, b, c, d]) (.int 2) = .ok c ∧ itemE (.list [a, b, c, d]) (.int 3) = .ok d := by
+  simp [itemE, listIdx]
+
+end Rbacx.PyI
+
+namespace Rbacx.PyI
+open PyVal Rbacx.PyE Rbacx.Py
+
+theorem select_loop_bind {β : Type} (m : PyVal → Bool) (B0 B1 B2 B3 : List PyVal) (body : PyVal → PyVal → Except CondErr (Ctl PyVal))
+    (k : PyVal → Except CondErr β) (R : Except CondErr β)
+    (h0 : ∀ sel, body sel (.int 0) = .ok (if B0.any m then .brk (.list B0) else .next sel))
+    (h1 : ∀ sel, body sel (.int 1) = .ok (if B1.any m then .brk (.list B1) else .next sel))
+    (h2 : ∀ sel, body sel (.int 2) = .ok (if B2.any m then .brk (.list B2) else .next sel))
+    (h3 : ∀ sel, body sel (.int 3) = .ok (if B3.any m then .brk (.list B3) else .next sel))
+    (hk : k (.list (selectB m [B0, B1, B2, B3])) = R) :
+    PyE.bind (forLoop [.int 0, .int 1, .int 2, .int 3] (.list []) body) k = R := by
+  rw [select_loop m B0 B1 B2 B3 body h0 h1 h2 h3]
+  exact hk
+
+/-- the model's bucket selection on the VALUES of the tagged candidates is the tagged selection, untagged -/
+theorem selectBucket_map (o : Oracle) (strict : Bool) (C : List PyVal) (rt : Option String) (res : PyVal) :
+    selectBucket o strict (C.map untag) rt res =
+      (selectB (fun x => matchResource o strict (por ((untag x).get "resource") (.dict [])) res)
+        [C.filter (fun x => categorize (untag x) rt == some 0), C.filter (fun x => categorize (untag x) rt == some 1),
+         C.filter (fun x => categorize (untag x) rt == some 2), C.filter (fun x => categorize (untag x) rt == some 3)]).map untag := by
+  unfold selectBucket bucket
+  simp only [List.filter_map, List.any_map, Function.comp_def, List.find?, selectB]
+  cases (C.filter (fun x => categorize (untag x) rt == some 0)).any (fun x => matchResource o strict (por ((untag x).get "resource") (.dict [])) res) <;>
+  cases (C.filter (fun x => categorize (untag x) rt == some 1)).any (fun x => matchResource o strict (por ((untag x).get "resource") (.dict [])) res) <;>
+  cases (C.filter (fun x => categorize (untag x) rt == some 2)).any (fun x => matchResource o strict (por ((untag x).get "resource") (.dict [])) res) <;>
+  cases (C.filter (fun x => categorize (untag x) rt == some 3)).any (fun x => matchResource o strict (por ((untag x).get "resource") (.dict [])) res) <;>
+  simp
+
+/-- the candidates of the model are the values of the tagged candidates -/
+theorem candidates_map (rs : List PyVal) (a : String) :
+    rs.filter (fun x => isCandidate x a) = ((tagFrom 0 rs).filter (fun x => namedP a x || starP x)).map untag := by
+  have h : ∀ x, (namedP a x || starP x) = isCandidate (untag x) a := by
+    intro x
+    unfold namedP starP isCandidate
+    by_cases ha : a = "*"
+    · subst ha; simp
+    · have : (a != "*") = true := by simpa using ha
+      simp only [this, Bool.true_and]
+      exact Bool.or_comm _ _
+  conv => lhs; rw [← map_untag_tagFrom 0 rs]
+  rw [List.filter_map]
+  congr 1
+  apply List.filter_congr
+  intro x _
+  simp only [Function.comp, h]
+
+theorem selectB_sublist (m : PyVal → Bool) (C : List PyVal) (p0 p1 p2 p3 : PyVal → Bool) :
+    (selectB m [C.filter p0, C.filter p1, C.filter p2, C.filter p3]).Sublist C := by
+  simp only [selectB]
+  split
+  · exact List.filter_sublist
+  · split
+    · exact List.filter_sublist
+    · split
+      · exact List.filter_sublist
+      · split
+        · exact List.filter_sublist
+        · exact List.nil_sublist _
+
+/-! ### lowering twice -/
+
+def lowerChar (c : Char) : Char := if 'A' ≤ c ∧ c ≤ 'Z' then Char.ofNat (c.toNat + 32) else c
+
+theorem lowerChar_idem' (c : Char) : lowerChar (lowerChar c) = lowerChar c := by
+  unfold lowerChar
+  by_cases h : 'A' ≤ c ∧ c ≤ 'Z'
+  · simp only [h, and_self, if_true]
+    have h1 : 65 ≤ c.toNat := by
+      have := h.1
+      rw [Char.le_def] at this
+      exact UInt32.le_iff_toNat_le.mp this
+    have h2 : c.toNat < 91 := by
+      have := h.2
+      rw [Char.le_def] at this
+      have h3 : c.toNat ≤ 90 := UInt32.le_iff_toNat_le.mp this
+      omega
+    have := lowerChar_idem c.toNat h2 h1
+    simp only [this, if_false]
+  · simp only [h, if_false]
+
+theorem asciiLower_idem (s : String) : asciiLower (asciiLower s) = asciiLower s := by
+  unfold asciiLower
+  rw [String.toList_ofList, List.map_map]
+  congr 1
+  apply List.map_congr_left
+  intro c _
+  exact lowerChar_idem' c
+
+theorem asciiLower_ne_empty (s : String) (h : s ≠ "") : asciiLower s ≠ "" := by
+  intro he
+  apply h
+  have h1 : (asciiLower s).toList = [] := by rw [he]; rfl
+  unfold asciiLower at h1
+  rw [String.toList_ofList] at h1
+  have h2 : s.toList = [] := by simpa using h1
+  have : String.ofList s.toList = String.ofList [] := by rw [h2]
+  simpa using this
+
+/-- what `(x or "<dflt>").lower()` returns is a non-empty fixpoint of `.lower()` -/
+theorem lowerField_fix {v : PyVal} {dflt algo : String} (h : lowerField v dflt = .ok algo) (hd : dflt ≠ "") :
+    algo ≠ "" ∧ asciiLower algo = algo := by
+  unfold lowerField at h
+  have hne : ∀ s, por v (.str dflt) = .str s → s ≠ "" := by
+    intro s hs
+    unfold por at hs
+    by_cases ht : v.truthy = true
+    · simp only [ht, if_true] at hs
+      subst hs
+      simpa [PyVal.truthy] using ht
+    · simp only [ht, Bool.false_eq_true, if_false] at hs
+      injection hs with hs; subst hs; exact hd
+  cases hp : por v (.str dflt) with
+  | str s =>
+    rw [hp] at h
+    simp only [Except.ok.injEq] at h
+    subst h
+    exact ⟨asciiLower_ne_empty s (hne s hp), asciiLower_idem s⟩
+  | _ => rw [hp] at h; cases h
+
+/-- `evaluate` on the policy the closure builds -/
+theorem evaluate_compiled (cx : CondCtx) (algo : String) (sel : List PyVal) (h1 : algo ≠ "") (h2 : asciiLower algo = algo) :
+    Rbacx.evaluate cx "deny-overrides" (.dict [("algorithm", .str algo), ("rules", .list sel)]) =
+      (match rulesLoop cx algo {} sel with
+       | .error e => .error e
+       | .ok s => .ok (finalise algo s)) := by
+  have hg : (PyVal.dict [("algorithm", .str algo), ("rules", .list sel)]).get "algorithm" = .str algo := by simp [PyVal.get, lookup]
+  have hr : rulesOf (PyVal.dict [("algorithm", .str algo), ("rules", .list sel)]) = sel := by
+    unfold rulesOf
+    have : (PyVal.dict [("algorithm", .str algo), ("rules", .list sel)]).get "rules" = .list sel := by simp [PyVal.get, lookup]
+    rw [this, por_list_nil]
+  have hl : lowerField (.str algo) "deny-overrides" = .ok algo := by
+    unfold lowerField por
+    have : (PyVal.str algo).truthy = true := by simpa [PyVal.truthy] using h1
+    simp only [this, if_true, h2]
+  unfold Rbacx.evaluate
+  rw [hg, hl, hr]
+  simp only [Bind.bind, Except.bind, Pure.pure, Except.pure]
+  cases rulesLoop cx algo {} sel <;> rfl
+
+theorem size_compiled (algo : String) (sel : List PyVal) : (PyVal.dict [("algorithm", .str algo), ("rules", .list sel)]).size = 3 + sizeL sel := by
+  simp only [PyVal.size, sizeD]
+  omega
 
 end Rbacx.PyI
